@@ -673,6 +673,6 @@ def run_bytes(case: dict[str, Any]) -> Outcome:
 
 
 def main(chk: Check) -> None:
-    chk.explore("wellframed", wellframed_cases, run_wellframed, quick=2000, thorough=40000)
-    chk.explore("bytes", bytes_cases, run_bytes, quick=400, thorough=8000)
-    chk.explore("sequence", sequence_cases, run_sequence, quick=300, thorough=6000)
+    chk.explore("wellframed", wellframed_cases, run_wellframed, quick=3000, thorough=40000)
+    chk.explore("bytes", bytes_cases, run_bytes, quick=600, thorough=8000)
+    chk.explore("sequence", sequence_cases, run_sequence, quick=450, thorough=6000)
